@@ -44,6 +44,12 @@ func c09TransportRace(c *c09Case, obs *c09Obs, port int) {
 				WriteTimeout: time.Duration(c.WriteMs) * time.Millisecond,
 				DialTimeout:  time.Duration(c.DialMs) * time.Millisecond})
 			if err := tc.Send(big); err != nil {
+				// the set-up failed (the dial timed out on an overloaded machine): no race on this client, nothing to judge
+				mu.Lock()
+				for r := 0; r < racers; r++ {
+					results[ci*racers+r] = c09CallObs{Call: ci*racers + r, Caller: ci, Out: "error", Err: "setup: " + err.Error()}
+				}
+				mu.Unlock()
 				return
 			}
 			time.Sleep(20 * time.Millisecond) // the send goroutine has taken the request and sits in conn.Write
@@ -53,6 +59,11 @@ func c09TransportRace(c *c09Case, obs *c09Obs, port int) {
 				rg.Add(1)
 				go func(r int) {
 					defer rg.Done()
+					// sleep up to shortly before the instant, spin only the last stretch (spinning callers of many clients would
+					// starve the process)
+					if d := time.Until(at) - 600*time.Microsecond; d > 0 {
+						time.Sleep(d)
+					}
 					for time.Now().Before(at) {
 					}
 					t0 := time.Now()
